@@ -180,3 +180,30 @@ def _call_sites(ctx):
                     kw = {k.arg: ast.unparse(k.value) for k in c.keywords}
             ok = "arrays.inv_permittivities" in kw.get("inv_permittivities", "") and "arrays.inv_permeabilities" in kw.get("inv_permeabilities", "")
             ctx.ob("R29.2", "fdtdx.fdtd.initialization.apply_params:materials", ok, "re-applied objects are set up against the current (post-device) material arrays", kw, "inv_permittivities=...arrays.inv_permittivities")
+            # every other material-state argument too: read from `arrays` in the call itself, or through a local
+            # whose every definition reads `arrays` and lies after the last device loop
+            last_dev = max(dev_loops) if dev_loops else -1
+            top_defs = {}
+            for i, st in enumerate(body):
+                if isinstance(st, ast.Assign) and len(st.targets) == 1 and isinstance(st.targets[0], ast.Name):
+                    top_defs.setdefault(st.targets[0].id, []).append((i, st.value))
+            stale = []
+            n_state = 0
+            for c in find_nodes(ifnode, ast.Call):
+                if not (isinstance(c.func, ast.Attribute) and c.func.attr == "apply"):
+                    continue
+                for k in c.keywords:
+                    if k.arg in (None, "key"):
+                        continue
+                    n_state += 1
+                    src = ast.unparse(k.value)
+                    if "arrays." in src:
+                        continue
+                    if isinstance(k.value, ast.Name) and k.value.id in top_defs:
+                        defs = top_defs[k.value.id]
+                        if all(i > last_dev and "arrays." in ast.unparse(v) for i, v in defs):
+                            continue
+                        stale.append((k.arg, [f"stmt {i}: {ast.unparse(v)[:60]}" for i, v in defs]))
+                    else:
+                        stale.append((k.arg, src[:60]))
+            ctx.ob("R29.2", "fdtdx.fdtd.initialization.apply_params:post-device-state", not stale and n_state >= 7, "every material-state argument of the re-apply (permittivity, permeability, the four dispersive coefficient arrays, conductivity) is read from `arrays` after the last device loop, never from a snapshot taken before the devices wrote their materials", stale[:3] if stale else f"{n_state} arguments", f"defined after stmt {last_dev}")
